@@ -335,6 +335,9 @@ Definition missing (t : sty) : outcome sval :=
   match t with TOption _ => Ok SNone | _ => Err E_DE end.
 
 Section De.
+  (* quirk flag (true = today's code): SeqDeserializer::deserialize_any calls
+     visit_unit for an empty list, so a field-less tuple variant is rejected *)
+  Variable q_etv : bool.
   Variable de : sty -> gval -> outcome sval.
 
   (* derive's visit_map for named fields: unknown keys are ignored, a missing
@@ -367,7 +370,9 @@ Section De.
           | KUnit, None => Ok (SVariant n KUnit SUnit)
           | KUnit, Some g => match g with GNull => Ok (SVariant n KUnit SUnit) | _ => Err E_DE end  (* <()>::deserialize *)
           | KNewtype, Some g => bindo (de t g) (fun v => Ok (SVariant n KNewtype v))
-          | KTuple, Some (GList []) => Err E_DE                   (* SeqDeserializer: len == 0 -> visit_unit *)
+          | KTuple, Some (GList []) =>
+              if q_etv then Err E_DE                              (* SeqDeserializer: len == 0 -> visit_unit *)
+              else bindo (de t (GList [])) (fun v => Ok (SVariant n KTuple v))
           | KTuple, Some (GList l) => bindo (de t (GList l)) (fun v => Ok (SVariant n KTuple v))
           | KStruct, Some (GObj o) => bindo (de t (GObj o)) (fun v => Ok (SVariant n KStruct v))
           | _, _ => Err E_DE
@@ -382,7 +387,7 @@ Definition bt_of_list {A} (l : list (str * A)) : list (str * A) :=
 Definition de_u8 (g : gval) : outcome N :=
   match g with GInt z => if in_range U8 z then Ok (Z.to_N z) else Err E_DE | _ => Err E_DE end.
 
-Fixpoint de (t : sty) (g : gval) {struct t} : outcome sval :=
+Fixpoint de (q : bool) (t : sty) (g : gval) {struct t} : outcome sval :=
   match t with
   | TBool => match g with GBool b => Ok (SBool b) | _ => Err E_DE end
   | TInt w => match g with GInt z => if in_range w z then Ok (SInt w z) else Err E_DE | _ => Err E_DE end
@@ -413,29 +418,29 @@ Fixpoint de (t : sty) (g : gval) {struct t} : outcome sval :=
   | TUnit | TUnitStruct => match g with GNull => Ok SUnit | _ => Err E_DE end
   | TOption t' => match g with                                   (* deserialize_option *)
                   | GNull => Ok SNone
-                  | _ => bindo (de t' g) (fun v => Ok (SSome v))
+                  | _ => bindo (de q t' g) (fun v => Ok (SSome v))
                   end
   | TSeq t' => match g with
-               | GList l => bindo (mapo (de t') l) (fun r => Ok (SSeq r))
+               | GList l => bindo (mapo (de q t') l) (fun r => Ok (SSeq r))
                | _ => Err E_DE
                end
   | TMap t' => match g with
-               | GObj o => bindo (mapo_snd (de t') o) (fun r => Ok (SMap (bt_of_list r)))
+               | GObj o => bindo (mapo_snd (de q t') o) (fun r => Ok (SMap (bt_of_list r)))
                | _ => Err E_DE
                end
-  | TNewtype t' => bindo (de t' g) (fun v => Ok (SNewtype v))   (* deserialize_newtype_struct *)
+  | TNewtype t' => bindo (de q t' g) (fun v => Ok (SNewtype v))   (* deserialize_newtype_struct *)
   | TTuple ts => match g with
-                 | GList l => bindo (map2o de ts l) (fun r => Ok (STuple r))   (* visit_array *)
+                 | GList l => bindo (map2o (de q) ts l) (fun r => Ok (STuple r))   (* visit_array *)
                  | _ => Err E_DE
                  end
   | TStruct fs => match g with
-                  | GObj o => bindo (de_fields de fs o) (fun r => Ok (SStruct r))      (* visit_object *)
-                  | GList l => bindo (de_fields_seq de fs l) (fun r => Ok (SStruct r)) (* visit_array *)
+                  | GObj o => bindo (de_fields (de q) fs o) (fun r => Ok (SStruct r))      (* visit_object *)
+                  | GList l => bindo (de_fields_seq (de q) fs l) (fun r => Ok (SStruct r)) (* visit_array *)
                   | _ => Err E_DE
                   end
   | TEnum vs => match g with                                      (* deserialize_enum *)
-                | GStr s | GEnum s => de_variant de s None vs
-                | GObj [(k, p)] => de_variant de k (Some p) vs
+                | GStr s | GEnum s => de_variant q (de q) s None vs
+                | GObj [(k, p)] => de_variant q (de q) k (Some p) vs
                 | _ => Err E_DE
                 end
   end.
@@ -542,18 +547,20 @@ Definition bad_int128 (v : sval) : bool :=
 Definition has_char (v : sval) : bool :=
   sub_exists (fun v => match v with SChar _ => true | _ => false end) v.
 
-Definition bad (v : sval) : bool :=
-  bad_some_null v || bad_nonfinite v || bad_empty_tuple_variant v || bad_int128 v.
+Definition bad (q : bool) (v : sval) : bool :=
+  bad_some_null v || bad_nonfinite v || (q && bad_empty_tuple_variant v) || bad_int128 v.
 
-Definition known_class (v : sval) : N :=
+(* [q] = the quirk flag of class 3 (inferred from the real code by running the
+   class's witness): once the code is repaired the class is empty. *)
+Definition known_class (q : bool) (v : sval) : N :=
   if sub_exists bad_some_null v then 1%N
   else if sub_exists bad_nonfinite v then 2%N
-  else if sub_exists bad_empty_tuple_variant v then 3%N
+  else if q && sub_exists bad_empty_tuple_variant v then 3%N
   else if sub_exists bad_int128 v then 4%N
   else 0%N.
 
 (* the round trip of the model *)
-Definition roundtrip (t : sty) (v : sval) : outcome sval := bindo (ser v) (de t).
+Definition roundtrip (q : bool) (t : sty) (v : sval) : outcome sval := bindo (ser v) (de q t).
 
 (* ---------------------------------------------------------- comparison --- *)
 Fixpoint gval_eqb (a b : gval) {struct a} : bool :=
@@ -621,15 +628,15 @@ Definition outcome_eqb {A} (f : A -> A -> bool) (a b : outcome A) : bool :=
 (* RT: a typed value [v] of type [t]; [ig] = what the real to_value returned,
    [ir] = what the real from_value::<T> returned on that value (Err when
    to_value failed). *)
-Definition check_rt (t : sty) (v : sval) (ig : outcome gval) (ir : outcome sval) : N :=
+Definition check_rt (q : bool) (t : sty) (v : sval) (ig : outcome gval) (ir : outcome sval) : N :=
   let mg := ser v in
-  let mr := match ig with Ok g => de t g | _ => Err E_SER end in
+  let mr := match ig with Ok g => de q t g | _ => Err E_SER end in
   let typed := wf_ty t && has_type t v in
   let impl_eq_model := typed && outcome_eqb gval_eqb ig mg && outcome_eqb sval_eqb ir mr in
   let ok r := outcome_eqb sval_eqb r (Ok v) in
   if has_char v then (if impl_eq_model then 0%N else 3%N)      (* outside the domain: correspondence only *)
-  else verdict impl_eq_model (ok (roundtrip t v)) (ok ir) (known_class v).
+  else verdict impl_eq_model (ok (roundtrip q t v)) (ok ir) (known_class q v).
 
 (* DE: an arbitrary GraphQL value [g] given to from_value::<T>. *)
-Definition check_de (t : sty) (g : gval) (ir : outcome sval) : N :=
-  if outcome_eqb sval_eqb ir (de t g) then 0%N else 3%N.
+Definition check_de (q : bool) (t : sty) (g : gval) (ir : outcome sval) : N :=
+  if outcome_eqb sval_eqb ir (de q t g) then 0%N else 3%N.
